@@ -99,7 +99,7 @@ func specMs(d time.Duration) float64 { return ConvertDurationToMs(d) }
 //@ ensures[C03.ser.onlylast]  ret1 == nil ==> forall(k, 0, len(ret0)-1, !specIsDest(ret0[k]))
 //@ ensures[C03.ser.extent]    ret1 == nil ==> specIsDest(ret0[len(ret0)-1]) || len(ret0) == int(p.MaxTTL)-int(p.MinTTL)+1
 //@ ensures[C19.ser.valid]     ret1 == nil ==> p.MinTTL >= 1 && p.MinTTL <= p.MaxTTL
-//@ ensures[C06.ser.order]     (sendN == old(sendN) || sendN - old(sendN) <= int(p.MaxTTL)-int(p.MinTTL)+1) && forall(k, old(sendN), sendN, sel(sendLog, k) == int(p.MinTTL) + (k - old(sendN)))
+//@ ensures[C06+C02.ser.order]     (sendN == old(sendN) || sendN - old(sendN) <= int(p.MaxTTL)-int(p.MinTTL)+1) && forall(k, old(sendN), sendN, sel(sendLog, k) == int(p.MinTTL) + (k - old(sendN)))
 //@ ensures[C06.ser.pace]      forall(k, old(sendN)+1, sendN, sel(sendClock, k) >= sel(sendClock, k-1) + int(p.SendDelay))
 //@ ensures[C19.ser.cover]     ret1 == nil && len(ret0) == int(p.MaxTTL)-int(p.MinTTL)+1 && !specIsDest(ret0[len(ret0)-1]) ==> sendN - old(sendN) == int(p.MaxTTL)-int(p.MinTTL)+1
 //@ loop 1 invariant[i.range]  int(p.MinTTL) <= i && i <= int(p.MaxTTL)+1 && p.MinTTL >= 1 && p.MinTTL <= p.MaxTTL
@@ -133,12 +133,12 @@ func specMs(d time.Duration) float64 { return ConvertDurationToMs(d) }
 //@ ensures[C03.par.onlylast]  ret1 == nil ==> forall(k, 0, len(ret0)-1, !specIsDest(ret0[k]))
 //@ ensures[C03.par.extent]    ret1 == nil ==> specIsDest(ret0[len(ret0)-1]) || len(ret0) == int(p.MaxTTL)-int(p.MinTTL)+1
 //@ ensures[C19.par.valid]     ret1 == nil ==> p.MinTTL >= 1 && p.MinTTL <= p.MaxTTL
-//@ ensures[C06.par.order]     (sendN == old(sendN) || sendN - old(sendN) <= int(p.MaxTTL)-int(p.MinTTL)+1) && forall(k, old(sendN), sendN, sel(sendLog, k) == int(p.MinTTL) + (k - old(sendN)))
+//@ ensures[C06+C02.par.order]     (sendN == old(sendN) || sendN - old(sendN) <= int(p.MaxTTL)-int(p.MinTTL)+1) && forall(k, old(sendN), sendN, sel(sendLog, k) == int(p.MinTTL) + (k - old(sendN)))
 //@ ensures[C06.par.pace]      forall(k, old(sendN)+1, sendN, sel(sendClock, k) >= sel(sendClock, k-1) + int(p.SendDelay))
 
 //@ func TracerouteParallel$1
 //@ safety C07 C04 C05 C14
-//@ requires[pre.probe]     probe != nil && p.MinTTL <= probe.TTL && int(probe.TTL) < len(results)
+//@ requires[pre.probe]     probe != nil && p.MinTTL <= probe.TTL && int(probe.TTL) < len(results) && !held(resultsMu)
 //@ ensures[C07.rule]       results[probe.TTL] == ite(atlock(results[probe.TTL]) == nil, probe, ite(!atlock(results[probe.TTL]).IsDest && probe.IsDest, probe, atlock(results[probe.TTL])))
 //@ ensures[C07.others]     forall(k, 0, len(results), k != int(probe.TTL) ==> results[k] == atlock(results[k]))
 //@ ensures[C14.unlocked]   !held(resultsMu)
@@ -147,7 +147,7 @@ func specMs(d time.Duration) float64 { return ConvertDurationToMs(d) }
 //@ func TracerouteParallel$2
 //@ safety C06 C10 C14
 //@ requires[pre.valid]        p.MinTTL >= 1 && p.MinTTL <= p.MaxTTL && t != nil && writerCtx != nil && sendN >= 0
-//@ ensures[C06.par.order]     (sendN == old(sendN) || sendN - old(sendN) <= int(p.MaxTTL)-int(p.MinTTL)+1) && forall(k, old(sendN), sendN, sel(sendLog, k) == int(p.MinTTL) + (k - old(sendN)))
+//@ ensures[C06+C02.par.order]     (sendN == old(sendN) || sendN - old(sendN) <= int(p.MaxTTL)-int(p.MinTTL)+1) && forall(k, old(sendN), sendN, sel(sendLog, k) == int(p.MinTTL) + (k - old(sendN)))
 //@ ensures[C06.par.pace]      forall(k, old(sendN)+1, sendN, sel(sendClock, k) >= sel(sendClock, k-1) + int(p.SendDelay))
 //@ ensures[ghost.mono]        sendN >= old(sendN)
 //@ ensures[C10.send.fatal]    ncalls(TracerouteDriver.SendProbe) > old(ncalls(TracerouteDriver.SendProbe)) && lastres(TracerouteDriver.SendProbe, 0) != nil ==> ret0 != nil && wraps(ret0, lastres(TracerouteDriver.SendProbe, 0))
@@ -155,7 +155,7 @@ func specMs(d time.Duration) float64 { return ConvertDurationToMs(d) }
 // preceded, with nothing in between that lets time pass, by a check that found the context still live
 //@ before TracerouteDriver.SendProbe assert[C06.par.stop.checked] !done(writerCtx)
 //@ loop 1 invariant[C10.send.handled] ncalls(TracerouteDriver.SendProbe) == old(ncalls(TracerouteDriver.SendProbe)) || lastres(TracerouteDriver.SendProbe, 0) == nil
-//@ stable C06.par.order C06.par.pace ghost.mono
+//@ stable C06+C02.par.order C06.par.pace ghost.mono
 //@ modifies ghost clock, ghost sendN, ghost sendLog, ghost sendClock
 //@ loop 1 invariant[i.range]  int(p.MinTTL) <= i && i <= int(p.MaxTTL)+1
 //@ loop 1 decreases[C08.par.ttl.variant] int(p.MaxTTL) + 1 - i
@@ -176,7 +176,7 @@ func specMs(d time.Duration) float64 { return ConvertDurationToMs(d) }
 // (nothing accepted is dropped, whatever the sender is doing at that moment)
 // a destination reply stops the sender: the writer context is cancelled in the same iteration that accepted it
 //@ loop 1 step[C06.par.stop]  ncalls(TracerouteDriver.ReceiveProbe) == iter(ncalls(TracerouteDriver.ReceiveProbe)) + 1 && lastres(TracerouteDriver.ReceiveProbe, 0) != nil && lastres(TracerouteDriver.ReceiveProbe, 1) == nil && lastres(TracerouteDriver.ReceiveProbe, 0).IsDest ==> cancelled(writerCancel)
-//@ loop 1 step[C07.recv.all]  ncalls(TracerouteDriver.ReceiveProbe) == iter(ncalls(TracerouteDriver.ReceiveProbe)) + 1 && lastres(TracerouteDriver.ReceiveProbe, 0) != nil && lastres(TracerouteDriver.ReceiveProbe, 1) == nil ==> ncalls("TracerouteParallel$1") == iter(ncalls("TracerouteParallel$1")) + 1 && lastarg("TracerouteParallel$1", probe) == lastres(TracerouteDriver.ReceiveProbe, 0)
+//@ loop 1 step[C07+C02.recv.all]  ncalls(TracerouteDriver.ReceiveProbe) == iter(ncalls(TracerouteDriver.ReceiveProbe)) + 1 && lastres(TracerouteDriver.ReceiveProbe, 0) != nil && lastres(TracerouteDriver.ReceiveProbe, 1) == nil ==> ncalls("TracerouteParallel$1") == iter(ncalls("TracerouteParallel$1")) + 1 && lastarg("TracerouteParallel$1", probe) == lastres(TracerouteDriver.ReceiveProbe, 0)
 
 // ---- C10: local address discovery opens one UDP socket and hands it to the caller, or fails leaving nothing open
 
